@@ -325,6 +325,29 @@ func (c *Ctx) readGlobal(s *State, v *types.Var) Value {
 // globalMapFacts: a package-level map[string]string initialised by a literal and never written afterwards holds exactly
 // the literal's entries (in whatever heap state it is read).
 func (c *Ctx) globalMapFacts(s *State, v *types.Var, val Value) {
+	if st, ok := v.Type().Underlying().(*types.Slice); ok && isByteType(st.Elem()) {
+		// []byte{...} literal with constant elements
+		cl, ok := unparen(c.eng.globalInits[v]).(*ast.CompositeLit)
+		if !ok {
+			return
+		}
+		pkg := c.eng.globalInitPkg[v]
+		sv := val.(SliceV)
+		var facts []string
+		for i, el := range cl.Elts {
+			tv, ok := pkg.TypesInfo.Types[el]
+			if !ok || tv.Value == nil {
+				return
+			}
+			cv := constToValue(tv.Value, tv.Type, c)
+			m := c.heapGet(s, "M.byte", sA2)
+			facts = append(facts, eq(sel(sel(m, sv.Ref), c.elemIndex(sv.Off, num(int64(i)))), asInt(cv)))
+		}
+		s.assume(and(eq(sv.Len, num(int64(len(cl.Elts)))), lt("0", sv.Ref)))
+		s.assume(and(facts...))
+		c.note("package-level []byte literals that are never written keep their initial contents: " + v.Pkg().Name() + "." + v.Name())
+		return
+	}
 	mt, ok := v.Type().Underlying().(*types.Map)
 	if !ok || !isStringType(mt.Key()) || !isStringType(mt.Elem()) {
 		return
